@@ -344,6 +344,12 @@ func checkA35(c *Ctx, p *Prog, fn *ssa.Function) bool {
 	rem := remainderPhi(fn, isRemInit)
 	indexGuarded := false // the extra units are given under `index < remainder` instead of by a countdown
 	nBase, nExtra := 0, 0
+	type condCredit struct {
+		cr   credit
+		edge CondEdge
+	}
+	var condBase []condCredit
+	var combined []credit
 	// extraGuard: block b is entered only when an extra unit is due: the countdown is not zero
 	// (and is reduced by one on the same path), or the index of the visited priority is below the
 	// remainder (the first `remainder` priorities: a prefix by construction)
@@ -394,16 +400,23 @@ func checkA35(c *Ctx, p *Prog, fn *ssa.Function) bool {
 		}
 		switch {
 		case isBase(cr.amount):
-			nBase++
 			// unconditional within the body: dominated only by the loop test (and the pre-loop guards)
+			var cond *CondEdge
 			for _, e := range InstrDomEdges(cr.in) {
 				if blockInLoop(e.From) {
 					iff := e.From.Instrs[len(e.From.Instrs)-1].(*ssa.If)
 					if cm := p.NormCmp(iff.Cond, true); cm == nil || !strings.Contains(cm.String(), "len(") {
-						problems = append(problems, "the base credit at "+p.InstrPos(cr.in)+" is conditional: some priority does not get its equal share")
+						e2 := e
+						cond = &e2
 					}
 				}
 			}
+			if cond != nil {
+				// the plain share in one branch, share+1 in the other (judged below)
+				condBase = append(condBase, condCredit{cr, *cond})
+				continue
+			}
+			nBase++
 		default:
 			var idxV ssa.Value
 			if cr.key != nil && cr.key.Op == "index" && len(cr.key.Args) == 2 {
@@ -415,6 +428,9 @@ func checkA35(c *Ctx, p *Prog, fn *ssa.Function) bool {
 				if okg, why := extraGuard(cr.in.Block(), idxV, cr.in); !okg {
 					problems = append(problems, why)
 				}
+			} else if es := deepStrip(cr.amount); es.Op == "bin" && es.Name == "+" && len(es.Args) == 2 &&
+				((isBase(es.Args[0]) && es.Args[1].String() == "1") || (isBase(es.Args[1]) && es.Args[0].String() == "1")) {
+				combined = append(combined, cr)
 			} else if ph, isPhi := cr.amtV.(*ssa.Phi); isPhi && len(ph.Edges) == 2 {
 				// one credit of `part`, part = base, or base+1 when an extra unit is due
 				baseEdge, extraEdge := -1, -1
@@ -458,6 +474,37 @@ func checkA35(c *Ctx, p *Prog, fn *ssa.Function) bool {
 			} else {
 				problems = append(problems, fmt.Sprintf("credit of %s at %s is neither the equal share dividend/len(priorities) nor one extra unit", cr.amount, p.InstrPos(cr.in)))
 			}
+		}
+	}
+	// share in one branch, share+1 in the other: `if extra due { d[p] += base+1 } else { d[p] += base }`
+	if len(condBase) == 1 && len(combined) == 1 {
+		cb, cm1 := condBase[0], combined[0]
+		var idxV ssa.Value
+		if cm1.key != nil && cm1.key.Op == "index" && len(cm1.key.Args) == 2 {
+			idxV = cm1.key.Args[1].V
+		}
+		if okg, why := extraGuard(cm1.in.Block(), idxV, cm1.in); !okg {
+			problems = append(problems, why)
+		}
+		// the plain share sits on the other side of the same test
+		sibling := false
+		for _, e := range InstrDomEdges(cm1.in) {
+			if e.From == cb.edge.From && e.Succ != cb.edge.Succ {
+				sibling = true
+			}
+		}
+		if !sibling {
+			problems = append(problems, "the base credit at "+p.InstrPos(cb.cr.in)+" is conditional: some priority does not get its equal share")
+		}
+		nBase++
+		nExtra++
+	} else {
+		for _, cb := range condBase {
+			nBase++
+			problems = append(problems, "the base credit at "+p.InstrPos(cb.cr.in)+" is conditional: some priority does not get its equal share")
+		}
+		for _, cm1 := range combined {
+			problems = append(problems, fmt.Sprintf("credit of %s at %s is neither the equal share dividend/len(priorities) nor one extra unit", cm1.amount, p.InstrPos(cm1.in)))
 		}
 	}
 	if rem == nil && !indexGuarded {
